@@ -17,8 +17,17 @@ def StmtComplete : Prop :=
   ∀ gf st, WF st → ∀ x r, (x, r) ∈ gStatement gf (abs st) → ∀ pf, gf + 2 ≤ pf →
     ∃ s st', parseStatement pf st = .ok (s, st') ∧ eraseStatement s = x ∧ abs st' = r
 
+theorem effToks_length (d : Nat) (toks : List LTok) : (effToks d toks).length = toks.length := by
+  induction toks generalizing d with
+  | nil => rfl
+  | cons a r ih => rw [effToks_cons]; simp [ih]
+
+theorem eff_length (st : PState) : (eff st).length = st.toks.length := effToks_length _ _
+
 theorem toks_nil_of_abs_nil {st : PState} (h : abs st = []) : st.toks = [] := by
-  simpa [abs] using h
+  have : (abs st).length = st.toks.length := by simp [abs, eff_length]
+  rw [h] at this
+  exact List.eq_nil_of_length_eq_zero this.symm
 
 theorem parseStatements_sound (hS : StmtSound) (pf n : Nat) (st : PState) (ss : List Statement)
     (st' : PState) (hwf : WF st) (h : parseStatements pf n st = .ok (ss, st')) :
@@ -78,9 +87,10 @@ theorem mem_derivations (d : Document) (ts : List STok) :
   · intro h
     exact ⟨d, [], ⟨h, by simp⟩, rfl⟩
 
-theorem abs_length (st : PState) : (abs st).length = st.toks.length := by simp [abs]
+theorem abs_length (st : PState) : (abs st).length = st.toks.length := by simp [abs, eff_length]
 
-theorem abs_eq_nil_iff (st : PState) : abs st = [] ↔ st.toks = [] := by simp [abs]
+theorem abs_eq_nil_iff (st : PState) : abs st = [] ↔ st.toks = [] :=
+  ⟨toks_nil_of_abs_nil, abs_nil⟩
 
 /-- **soundness of the parser model** (given statement-level soundness): an accepted token
 sequence is derivable from the grammar, with the tree the parser built (up to spans and docs) -/
